@@ -116,7 +116,8 @@ double tdigest<T, A>::get_rank(T value) const {
   if (value > last_mean) {
     if (max_ - last_mean > 0) {
       if (value == max_) return 1.0 - 0.5 / centroids_weight_;
-        return 1.0 - ((1.0 + (max_ - value) / (max_ - last_mean) * (centroids_.back().get_weight() / 2.0 - 1.0)) / centroids_weight_); // ?
+      // (W - t) / W, not 1 - t / W: the latter can round below the rank at last_mean itself (rank not monotone)
+      return (centroids_weight_ - (1.0 + (max_ - value) / (max_ - last_mean) * (centroids_.back().get_weight() / 2.0 - 1.0))) / centroids_weight_;
     }
     return 1; // should never happen
   }
